@@ -102,3 +102,23 @@ def pinned_dictkey(i: int) -> bool:
     post: _
     """
     return _dictkey_lookups() == EXP_DICTKEY or fail("engine-dict-lookup-differs-from-cpython")
+
+
+import posixpath as _pp  # noqa: E402
+from xhair import chpatch as _chp  # noqa: E402
+
+NP_STRINGS = ["", "/", "//", "///a", "//a/b", "a/..", "a/../..", "/..", "/r/H/A/../A/x", "/r/H/A/x/.", "/r//H/./A/x/", "../a", "a/b/../../..", "/r/H/A/.."]
+EXP_NP = [(_chp._C_NORMPATH or _pp.normpath)(s) for s in NP_STRINGS]      # the C implementation's answers
+
+
+def pinned_normpath(t: str) -> bool:
+    """
+    E11: os.path.normpath on symbolic strings (pure-Python reference) equals the C implementation.
+    pre: len(t) == 0
+    post: _
+    """
+    import os
+    for i, s in enumerate([c + t for c in NP_STRINGS]):
+        if os.path.normpath(s) != EXP_NP[i]:
+            return fail("engine-normpath-differs-from-cpython")
+    return True
